@@ -533,6 +533,35 @@ def rule_f(R, ctx):
     R.ob("C19.f", into, "injective", len(used) == len(set(used)), "each flag constant feeds one option: %s" % sorted(used))
 
 
+def rule_g(R, ctx):
+    FFI = ctx.yffi
+    R.rule("C19.g", "R-GUARD dispatch on an optional attribute argument: in every exported wrapper that can call both an API function "
+                    "and its `_with_attributes` sibling, the plain variant is reached only under `<attrs pointer>.is_null()` — a "
+                    "non-NULL attribute map, even an empty one, goes to the `_with_attributes` variant (the two are not equivalent: "
+                    "an insert with an empty map clears the formatting active at the cursor, a plain insert inherits it)")
+    n = 0
+    for name, fn in sorted(exported(FFI).items()):
+        if not fn.mir:
+            continue
+        v = FnView(fn)
+        calls = {}
+        for cs in fn.calls():
+            nm = F.strip_generics(cs.name).rsplit("::", 1)[-1]
+            calls.setdefault(nm, []).append(cs)
+        for plain, css in sorted(calls.items()):
+            sib = plain + "_with_attributes"
+            if sib not in calls or not re.search(r"(Text|Xml)", " ".join(F.strip_generics(c.name) for c in css + calls[sib])):
+                continue
+            for cs, site in ordinal_sites(css):
+                n += 1
+                ok = any(l.polarity is True and l.term[0] == "call" and re.search(r"::is_null$", l.term[1]) and
+                         any(x[0] == "param" for x in walk(l.term)) for l in v.guards(cs.bb))
+                R.ob("C19.g", fn, site, ok,
+                     "plain %s only when the attribute pointer is NULL" % plain if ok else
+                     "%s is also reached with a non-NULL attribute argument (guards: %s)" % (plain, v.guard_descs(cs.bb)[-3:]), cs.loc())
+    R.floor("C19.g", "plain calls next to a _with_attributes sibling", n, 2)
+
+
 def check(ctx, R):
     holder = {}
     R.run("C19.a", lambda R, c: holder.setdefault("h", rule_a(R, c)), ctx)
@@ -540,6 +569,7 @@ def check(ctx, R):
     R.run("C19.c", rule_c, ctx)
     R.run("C19.e", rule_e, ctx)
     R.run("C19.f", rule_f, ctx)
+    R.run("C19.g", rule_g, ctx)
     if "h" in holder:
         R.run("C19.d", rule_d, ctx, holder["h"])
     return {}
